@@ -131,14 +131,20 @@ impl ConnectionManager {
                     let request = if let Some(request) = maybe_request {
                         request
                     } else {
+                        #[cfg(bmwill_anemo_verif)]
+                        self.verif_trace("handles-dropped");
                         break;
                     };
 
                     match request {
                         ConnectionManagerRequest::ConnectRequest(address, peer_id, oneshot) => {
+                            #[cfg(bmwill_anemo_verif)]
+                            self.verif_trace("process kind=connect");
                             self.handle_connect_request(address, peer_id, oneshot);
                         }
                         ConnectionManagerRequest::Shutdown(oneshot) => {
+                            #[cfg(bmwill_anemo_verif)]
+                            self.verif_trace("process kind=shutdown");
                             shutdown_notifier = Some(oneshot);
                             break;
                         }
@@ -146,8 +152,12 @@ impl ConnectionManager {
                 }
                 connecting = self.endpoint.accept() => {
                     if let Some(connecting) = connecting {
+                        #[cfg(bmwill_anemo_verif)]
+                        self.verif_trace("incoming");
                         self.handle_incoming(connecting);
                     } else {
+                        #[cfg(bmwill_anemo_verif)]
+                        self.verif_trace("accept-none");
                         // `None` means this incoming connection could not be accepted, but once
                         // the endpoint's driver is gone (e.g. the runtime is shutting down) it is
                         // yielded every time: yield so such a stream of `None`s never keeps the
@@ -165,6 +175,8 @@ impl ConnectionManager {
                     }
                 },
                 Some(connection_handler_output) = self.connection_handlers.join_next() => {
+                    #[cfg(bmwill_anemo_verif)]
+                    self.verif_trace(&format!("join cancelled={}", connection_handler_output.as_ref().err().map(|e| e.is_cancelled()).unwrap_or(false)));
                     match connection_handler_output {
                         Ok(()) => {}
                         // The task was cancelled because the runtime is shutting down
@@ -194,9 +206,13 @@ impl ConnectionManager {
 
         // Terminate any in-progress pending connections
         self.pending_connections.shutdown().await;
+        #[cfg(bmwill_anemo_verif)]
+        self.verif_trace("abort-pending");
 
         // Wait for all connection handlers to terminate
         while let Some(result) = self.connection_handlers.join_next().await {
+            #[cfg(bmwill_anemo_verif)]
+            self.verif_trace(&format!("join cancelled={}", result.as_ref().err().map(|e| e.is_cancelled()).unwrap_or(false)));
             if let Err(e) = result {
                 if e.is_panic() {
                     // If a task panics, just propagate it
@@ -207,10 +223,14 @@ impl ConnectionManager {
         // Every handler removes its own peer when it terminates, so at this point we shouldn't
         // have any active peers. A handler that was cancelled (the runtime is shutting down)
         // never got to: remove what is left on its behalf so subscribers still see the peer lost.
+        #[cfg(bmwill_anemo_verif)]
+        self.verif_trace(&format!("all-joined leftover={}", self.active_peers.len()));
         for peer_id in self.active_peers.peers() {
             self.active_peers
                 .remove(&peer_id, DisconnectReason::LocallyClosed);
         }
+        #[cfg(bmwill_anemo_verif)]
+        self.verif_trace("cleanup-done");
 
         // wait for the endpoint to be idle
         self.endpoint
@@ -226,6 +246,13 @@ impl ConnectionManager {
         self.endpoint.rebind(socket).unwrap();
         let socket = std::net::UdpSocket::bind((std::net::Ipv4Addr::LOCALHOST, 0)).unwrap();
         self.endpoint.rebind(socket).unwrap();
+        #[cfg(bmwill_anemo_verif)]
+        self.verif_trace("finish");
+    }
+
+    #[cfg(bmwill_anemo_verif)]
+    fn verif_trace(&self, what: &str) {
+        crate::verif::trace(format!("mgr own={} {what}", self.endpoint.peer_id()));
     }
 
     /// This method adds an established connection with a peer to the map of active peers.
@@ -235,6 +262,12 @@ impl ConnectionManager {
             .active_peers
             .add(&self.endpoint.peer_id(), new_connection)
         {
+            #[cfg(bmwill_anemo_verif)]
+            self.verif_trace(&format!(
+                "add-peer peer={} id={}",
+                new_connection.peer_id(),
+                new_connection.stable_id()
+            ));
             let request_handler = InboundRequestHandler::new(
                 self.config.clone(),
                 new_connection,
@@ -350,6 +383,12 @@ impl ConnectionManager {
                     self.active_peers.inner().contains(&peer_id),
                     maybe_oneshot.is_some()
                 ));
+                #[cfg(bmwill_anemo_verif)]
+                self.verif_trace(&format!(
+                    "conn-result ok=true reply={} peer={}",
+                    maybe_oneshot.is_some(),
+                    peer_id
+                ));
                 if let Some(oneshot) = maybe_oneshot {
                     let _ = oneshot.send(Ok(peer_id));
                 }
@@ -360,6 +399,8 @@ impl ConnectionManager {
                     target_peer_id = ?target_peer_id,
                     "connecting failed: {e}"
                 );
+                #[cfg(bmwill_anemo_verif)]
+                self.verif_trace(&format!("conn-result ok=false reply={} peer=-", maybe_oneshot.is_some()));
                 if let Some(oneshot) = maybe_oneshot {
                     let _ = oneshot.send(Err(e));
                 }
